@@ -54,9 +54,10 @@ def place_fields(p):
 
 
 class Call:
-    __slots__ = ('fn', 'bb', 't', 'callee', 'decl', 'short', 'args', 'dst', 'target', 'line', 'file', 'exp', 'gargs')
+    __slots__ = ('fn', 'bb', 't', 'callee', 'decl', 'short', 'args', 'dst', 'target', 'line', 'file', 'exp', 'gargs', 'inlined')
 
     def __init__(self, fn, bb, t):
+        self.inlined = False      # True: kept for visibility in an inline_view; the callee's body is spliced in at this block
         self.fn = fn
         self.bb = bb
         self.t = t
@@ -618,12 +619,84 @@ def provenance(fn, start, pass_through=PASS_THROUGH, follow_all_call_args=False,
 
 
 
-def symbolic_paths(fn, src, dst, atom_of_call, avoid=(), max_paths=20000):
+def _merge_cons(a, b):
+    """union of two constraint dicts, or None when they contradict"""
+    out = dict(a)
+    for k, v in b.items():
+        if out.get(k, v) != v:
+            return None
+        out[k] = v
+    return out
+
+
+def _not_val(v):
+    if v is None:
+        return None
+    if v[0] == 'const':
+        return ('const', not v[1])
+    if v[0] == 'atom':
+        return ('atom', v[1], not v[2])
+    if v[0] == 'cases':
+        return ('cases', [(c, not x) for c, x in v[1]])
+    return None
+
+
+def bool_cases(prog, g, atom_of_call, depth=0):
+    """Summary of a bool-valued function or closure over the atoms: [(constraints, returned value)], one entry per feasible path,
+    or None when some path returns a value that is not a function of the atoms."""
+    if depth > 3 or g is None:
+        return None
+    out = []
+    for e in g.exits:
+        res = symbolic_paths(g, 0, e, atom_of_call, prog=prog, want_ret=True, _depth=depth + 1)
+        if res is None:
+            return None
+        for cons, val in res:
+            if val is None:
+                return None
+            if val[0] == 'const':
+                out.append((cons, val[1]))
+            elif val[0] == 'atom':
+                for truth in (True, False):
+                    c2 = _merge_cons(cons, {val[1]: truth})
+                    if c2 is not None:
+                        out.append((c2, truth if val[2] else not truth))
+            elif val[0] == 'cases':
+                for cc, x in val[1]:
+                    c2 = _merge_cons(cons, cc)
+                    if c2 is not None:
+                        out.append((c2, x))
+            else:
+                return None
+    return out
+
+
+def _closure_fn_of(prog, fn, op):
+    if not is_place(op) or op['pl']['p']:
+        return None
+    d = fn.single_def(op['pl']['l'])
+    if d is None or d[2] != 'stmt':
+        return None
+    r = d[3]['r']
+    if r['rv'] == 'use' and is_place(r['ops'][0]):
+        return _closure_fn_of(prog, fn, r['ops'][0])
+    if r['rv'] == 'agg' and r['kind'].startswith('closure:'):
+        return prog.by_crate[fn.crate].get(r['kind'][len('closure:'):])
+    return None
+
+
+OPTION_BOOL_COMBINATORS = {'map_or': None, 'is_some_and': False, 'is_none_or': True}
+
+
+def symbolic_paths(fn, src, dst, atom_of_call, avoid=(), max_paths=20000, prog=None, want_ret=False, _depth=0):
     """Enumerate the acyclic CFG paths src -> dst (not entering `avoid`), tracking boolean locals symbolically.
-    `atom_of_call(call)` names the calls whose result is an atom: return (id, 'bool') for a bool result, (id, 'option') for an
+    `atom_of_call(fn, call)` names the calls whose result is an atom: return (id, 'bool') for a bool result, (id, 'option') for an
     Option result whose Some/None-ness is the atom, or None.  Materialised booleans (`x = !a`, `x = a || b` lowered to branches and
     copies, `let need = ...; if need`) are followed through copies, `Not` and constants, and infeasible edges are pruned.
-    Returns the list of constraint dicts {atom id: bool}, one per feasible path, or None when the bound is exceeded."""
+    With `prog`, a call of a bool-valued function of the crate is replaced by its summary over the atoms (bool_cases), and
+    `opt.map_or(b, |x| ..)` / `is_some_and` / `is_none_or` on an Option atom by the summary of the closure.
+    Returns the list of constraint dicts {atom id: bool}, one per feasible path (with want_ret: (constraints, value of _0) pairs),
+    or None when the bound is exceeded."""
     can = {dst}
     changed = True
     while changed:
@@ -634,6 +707,12 @@ def symbolic_paths(fn, src, dst, atom_of_call, avoid=(), max_paths=20000):
                 changed = True
     out = []
     count = [0]
+    summaries = {}
+
+    def summary(g):
+        if g.name not in summaries:
+            summaries[g.name] = bool_cases(prog, g, atom_of_call, _depth)
+        return summaries[g.name]
 
     def step_block(i, env):
         b = fn.blocks[i]
@@ -654,11 +733,7 @@ def symbolic_paths(fn, src, dst, atom_of_call, avoid=(), max_paths=20000):
             elif r['rv'] == 'unop' and r.get('op') == 'Not':
                 o = r['ops'][0]
                 v = env.get(o['pl']['l']) if is_place(o) and not o['pl']['p'] else None
-                if v is not None:
-                    if v[0] == 'const':
-                        val = ('const', not v[1])
-                    elif v[0] == 'atom':
-                        val = ('atom', v[1], not v[2])
+                val = _not_val(v)
             elif r['rv'] == 'discr' and not r['pl']['p']:
                 v = env.get(r['pl']['l'])
                 if v is not None and v[0] == 'opt':
@@ -668,13 +743,32 @@ def symbolic_paths(fn, src, dst, atom_of_call, avoid=(), max_paths=20000):
         if t and t['t'] == 'call':
             c = fn.call_at[i]
             if not c.dst['p']:
-                a = atom_of_call(c)
-                if a is None:
-                    env[c.dst['l']] = None
-                elif a[1] == 'bool':
-                    env[c.dst['l']] = ('atom', a[0], True)
-                else:
-                    env[c.dst['l']] = ('opt', a[0])
+                a = atom_of_call(fn, c)
+                val = None
+                if a is not None:
+                    val = ('atom', a[0], True) if a[1] == 'bool' else ('opt', a[0])
+                elif prog is not None and _depth <= 3:
+                    g = prog.resolve(c.callee, fn.crate)
+                    if g is not None and g.kind in ('Fn', 'AssocFn') and g.ty.get(0) == 'bool':
+                        cs = summary(g)
+                        val = ('cases', cs) if cs else None
+                    elif c.short in OPTION_BOOL_COMBINATORS and re.search(r'option::Option', c.callee) and c.args and is_place(c.args[0]) \
+                            and not c.args[0]['pl']['p']:
+                        recv = env.get(c.args[0]['pl']['l'])
+                        default = OPTION_BOOL_COMBINATORS[c.short]
+                        if default is None and len(c.args) == 3 and c.args[1].get('k') == 'const' and str(c.args[1].get('v')) in ('true', 'false'):
+                            default = str(c.args[1].get('v')) == 'true'
+                        g2 = _closure_fn_of(prog, fn, c.args[-1])
+                        if recv is not None and recv[0] == 'opt' and default is not None and g2 is not None:
+                            cs2 = summary(g2)
+                            if cs2:
+                                cases = [({recv[1]: False}, default)]
+                                for cc, x in cs2:
+                                    m = _merge_cons(cc, {recv[1]: True})
+                                    if m is not None:
+                                        cases.append((m, x))
+                                val = ('cases', cases)
+                env[c.dst['l']] = val
 
     def go(i, env, cons, seen):
         if count[0] > max_paths:
@@ -684,7 +778,7 @@ def symbolic_paths(fn, src, dst, atom_of_call, avoid=(), max_paths=20000):
         step_block(i, env)
         if i == dst:
             count[0] += 1
-            out.append(cons)
+            out.append((cons, env.get(0)) if want_ret else cons)
             return
         t = fn.blocks[i]['term']
         edges = []
@@ -717,6 +811,15 @@ def symbolic_paths(fn, src, dst, atom_of_call, avoid=(), max_paths=20000):
                         if c2.get(v[1], aval) != aval:
                             continue
                         c2[v[1]] = aval
+                    elif v[0] == 'cases':
+                        truth = (vv != 0) if vv is not None else (0 in vals)
+                        for cc, x in v[1]:
+                            if x != truth:
+                                continue
+                            m = _merge_cons(c2, cc)
+                            if m is not None:
+                                go(tg, env, m, seen | {i})
+                        continue
                 go(tg, env, c2, seen | {i})
             return
         for tg in fn.succ.get(i, []):
@@ -820,6 +923,8 @@ def inline_view(prog, fn, should_inline=None, max_depth=3, max_blocks=6000):
     next_local = max(l['i'] for l in locals_) + 1
     next_bb = max(b['bb'] for b in d['blocks']) + 1
     inlined = []
+    inlined_fns = []
+    ghosts = []
     work = [(b, (fn.name,), 0) for b in blocks]
     by_bb = {b['bb']: b for b in blocks}
     while work:
@@ -850,18 +955,44 @@ def inline_view(prog, fn, should_inline=None, max_depth=3, max_blocks=6000):
             new_blocks.append(nb)
             by_bb[nb['bb']] = nb
         b['term'] = {'t': 'goto', 'succ': [boff + 0], 'sp': t['sp'], 'inlined_call': t['callee']}
+        ghosts.append((b['bb'], t))
         blocks.extend(new_blocks)
         inlined.append(g.name)
+        inlined_fns.append(g)
         for nb in new_blocks:
             work.append((nb, stack + (g.name,), depth + 1))
     nd = dict(d, blocks=blocks, locals=locals_, names=names)
     view = Fn(nd, fn.crate, fn.name)
     view.inlined = inlined
+    view.inlined_fns = inlined_fns
     view.origin = fn
+    # the calls that were spliced stay visible (who-calls-whom rules, walks into the callee): listed in .calls, marked .inlined,
+    # but not a definition of their destination — the spliced body assigns it
+    for bb, t in ghosts:
+        c = Call(view, bb, t)
+        c.inlined = True
+        view.calls.append(c)
+    view.calls.sort(key=lambda c: c.bb)
     if should_inline is None:
         fn._inline_view = view
     return view
 
+
+
+def handed_to(prog, closure_fn):
+    """[(parent Fn, call, argument position)] — the calls of the parent that receive the closure `closure_fn` as an argument
+    (e.g. the iterator adapter it is the predicate / mapper of)"""
+    parent = prog.by_crate[closure_fn.crate].get(closure_fn.parent)
+    if parent is None:
+        return []
+    locs = {st['dst']['l'] for b in parent.blocks.values() for st in b['stmts']
+            if st['r']['rv'] == 'agg' and st['r']['kind'] == 'closure:' + closure_fn.name and not st['dst']['p']}
+    out = []
+    for c in parent.calls:
+        for i, a in enumerate(c.args):
+            if is_place(a) and not a['pl']['p'] and a['pl']['l'] in locs:
+                out.append((parent, c, i))
+    return out
 
 
 def owner_local_of_upvar(prog, fn, operand):
@@ -1049,7 +1180,9 @@ class Program:
 
     def inlined(self):
         """A second view of the same program in which every ordinary product function of the acb crates carries the bodies of the
-        same-file / same-module functions it calls (inline_view). Closures, constants and test support are left as they are."""
+        same-file / same-module functions it calls (inline_view); so do closure and coroutine bodies. Constants and test support are
+        left as they are.  The view only adds: the spliced calls stay listed (Call.inlined) and closures_of covers the closures of the
+        spliced callees, so whatever a rule can see on the program as written it can also see here."""
         import copy
         q = copy.copy(self)
         q.fns = dict(self.fns)
@@ -1059,7 +1192,7 @@ class Program:
         q._callers = None
         q.is_inlined_view = True
         for name, f in self.fns.items():
-            if f.kind in ('Fn', 'AssocFn') and not is_testsupport(name) and f.crate.startswith('acb'):
+            if f.kind in ('Fn', 'AssocFn', 'Closure', 'SyntheticCoroutineBody') and not is_testsupport(name) and f.crate.startswith('acb'):
                 try:
                     v = inline_view(self, f)
                 except Exception:
@@ -1124,8 +1257,8 @@ class Program:
 
     def closures_of(self, fn):
         """bodies nested (transitively) in fn"""
-        pre = fn.local_name + '::{'
-        return [g for g in self.by_crate[fn.crate].values() if g.local_name.startswith(pre)]
+        pres = [fn.local_name + '::{'] + [h.local_name + '::{' for h in getattr(fn, 'inlined_fns', [])]
+        return [g for g in self.by_crate[fn.crate].values() if any(g.local_name.startswith(pre) for pre in pres) and g is not fn]
 
     def body_group(self, fn):
         """fn plus its nested closures / coroutine bodies"""
